@@ -417,7 +417,25 @@ def g4(ctx):
                             rets_false = False
                     ctx.check(rets_false, "member-reports-no-change:" + C.fkey(lb), "when the permutation is already a member the union reports false",
                               "the leader union reports a change although the permutation was already in the class group", where_of(lb, sb))
-        ctx.check(ok, "add-only-non-member:" + C.fkey(lb), "Group::add is dominated by !group.contains(the same permutation)",
+        if not ok:
+            # equivalent form: the answer of Group::add itself is used (it is `false`, and the group untouched, for a member):
+            # `if !grp.add(p) { return false; }`
+            for sb in lb.switch_blocks():
+                t = lb.blocks[sb]["term"]
+                pl = mir.op_place(t["discr"])
+                if pl is None or pl["p"] or pl["l"] != c.dest["l"]:
+                    continue
+                same_e = [("e", sb, v) for v, _ in t["cases"] if v == "0"]
+                if not same_e:
+                    continue
+                ok = True
+                rets_false = True
+                for d in lb.defs().get(0, []):
+                    if d["kind"] == "assign" and lb.dominated_by(d["bb"], same_e) and lb.role_of_rvalue(d["rv"]) != ("const", "false"):
+                        rets_false = False
+                ctx.check(rets_false, "member-reports-no-change:" + C.fkey(lb), "when Group::add answers false (already a member) the union reports false",
+                          "the leader union reports a change although Group::add said the permutation was already in the class group", where_of(lb, sb))
+        ctx.check(ok, "add-only-non-member:" + C.fkey(lb), "Group::add is dominated by !group.contains(the same permutation), or its own answer decides what the union reports",
                   "the leader union adds a permutation without testing membership of that permutation in that group first", where_of(lb, c.bb))
     ctx.floor("Group::add sites in the leader union", n, 1)
 
